@@ -88,7 +88,9 @@ func (c *onCloseCounter) minmax() (int32, int32) {
 	return lo, hi
 }
 
-func runServerStop(transport string, k int) (line string) {
+// slow: one more peer connects right before Stop() and the application's OnNewConn callback for it takes 150 ms: Stop()
+// arrives while that connection is between Accept and its registration in the server's connection table.
+func runServerStop(transport string, k int, slow bool) (line string) {
 	defer func() {
 		if r := recover(); r != nil {
 			line = fmt.Sprintf("panic %v", r)
@@ -105,6 +107,13 @@ func runServerStop(transport string, k int) (line string) {
 		_ = w.SetResponse(codes.Content, message.TextPlain, nil)
 	}))
 	counter := &onCloseCounter{}
+	var accepted atomic.Int32
+	onNew := func(register func(func())) {
+		counter.add(register)
+		if slow && int(accepted.Add(1)) > k {
+			time.Sleep(150 * time.Millisecond)
+		}
+	}
 	served := make(chan error, 1)
 	var stop func()
 	var addr string
@@ -116,7 +125,7 @@ func runServerStop(transport string, k int) (line string) {
 		}
 		defer l.Close()
 		s := udp.NewServer(options.WithMux(r), options.WithErrors(func(error) {}),
-			options.WithOnNewConn(func(cc *udpclient.Conn) { counter.add(func(f func()) { cc.AddOnClose(f) }) }))
+			options.WithOnNewConn(func(cc *udpclient.Conn) { onNew(func(f func()) { cc.AddOnClose(f) }) }))
 		go func() { served <- s.Serve(l) }()
 		stop, addr = s.Stop, l.LocalAddr().String()
 	} else if transport == "dtls" {
@@ -126,7 +135,7 @@ func runServerStop(transport string, k int) (line string) {
 		}
 		defer l.Close()
 		s := coapdtls.NewServer(options.WithMux(r), options.WithErrors(func(error) {}),
-			options.WithOnNewConn(func(cc *udpclient.Conn) { counter.add(func(f func()) { cc.AddOnClose(f) }) }))
+			options.WithOnNewConn(func(cc *udpclient.Conn) { onNew(func(f func()) { cc.AddOnClose(f) }) }))
 		go func() { served <- s.Serve(l) }()
 		stop, addr = s.Stop, l.Addr().String()
 	} else {
@@ -136,7 +145,7 @@ func runServerStop(transport string, k int) (line string) {
 		}
 		defer l.Close()
 		s := tcp.NewServer(options.WithMux(r), options.WithErrors(func(error) {}),
-			options.WithOnNewConn(func(cc *tcpclient.Conn) { counter.add(func(f func()) { cc.AddOnClose(f) }) }))
+			options.WithOnNewConn(func(cc *tcpclient.Conn) { onNew(func(f func()) { cc.AddOnClose(f) }) }))
 		go func() { served <- s.Serve(l) }()
 		stop, addr = s.Stop, l.Addr().String()
 	}
@@ -207,6 +216,39 @@ func runServerStop(transport string, k int) (line string) {
 	}
 	if int(inHandler.Load()) < k {
 		return "setup-failed"
+	}
+	if slow {
+		// the late peer: connects (and, for dtls, shakes hands) now; its OnNewConn is still running when Stop() comes
+		var c cl
+		var err error
+		switch transport {
+		case "udp":
+			c, err = udp.Dial(addr)
+		case "dtls":
+			c, err = coapdtls.Dial(addr, pskConfig())
+		default:
+			c, err = tcp.Dial(addr)
+		}
+		if err != nil {
+			return "conn-error"
+		}
+		clients = append(clients, c)
+		cwg.Add(1)
+		go func() {
+			defer cwg.Done()
+			ctx, cancel := context.WithTimeout(context.Background(), 900*time.Millisecond)
+			defer cancel()
+			_, _ = c.Get(ctx, "/block")
+			returned.Add(1)
+		}()
+		deadline := time.Now().Add(time.Second)
+		for int(accepted.Load()) <= k && time.Now().Before(deadline) {
+			time.Sleep(2 * time.Millisecond)
+		}
+		if int(accepted.Load()) <= k {
+			return "setup-failed"
+		}
+		time.Sleep(20 * time.Millisecond)
 	}
 	causeAt := time.Now()
 	var swg sync.WaitGroup
